@@ -41,11 +41,15 @@ fn bounds(max: u8, cfg: bool, sep: bool) -> Vec<(u8, Option<u8>, Via)> {
                 v.push((lo, Some(hi), Via::MixedLo));
                 v.push((lo, Some(hi), Via::MixedHi));
                 v.push((lo, Some(hi), Via::ConfigureNoop));
+                if hi >= 1 {
+                    v.push((lo, Some(hi), Via::Override));
+                }
             }
             if lo == hi {
                 v.push((lo, Some(hi), Via::Exactly));
                 if cfg && !sep {
                     v.push((lo, Some(hi), Via::ConfigureExactly));
+                    v.push((lo, Some(hi), Via::OverrideExactly));
                 }
             }
         }
